@@ -28,6 +28,34 @@ theorem closer_facts {c : Char} (h : Closer c) :
       ∧ c ≠ ':' := by
   rcases h with h | h | h | h <;> subst h <;> decide
 
+/-- what may follow a token: nothing, or a character that is not a digit, a name character or a
+    hex digit and that ends a date token (separators, closing brackets, blanks, `;`) -/
+def Ends (rest : List Char) : Prop :=
+  ∀ c, rest.head? = some c → Char.isDigit c = false ∧ isNameChar c = false ∧ isHexTok c = false ∧ isDateDelim c = true
+
+theorem Cont.ends {rest : List Char} (h : Cont rest) : Ends rest := by
+  obtain ⟨c, r, rfl, hc⟩ := h
+  intro c' hc'
+  simp only [List.head?_cons, Option.some.injEq] at hc'
+  subst hc'
+  have := closer_facts hc
+  exact ⟨this.2.1, this.2.2.1, this.2.2.2.1, this.2.2.2.2.1⟩
+
+theorem ends_nil : Ends [] := by intro c h; simp at h
+
+/-- what the text after a printed term must satisfy for the term to be read back: a token that
+    could go on (integer, date, hex digits) must be followed by something that ends it; every
+    other term ends by itself (closing quote, bracket, brace, fixed keyword) -/
+def EndsFor (t : Printer.STerm) (rest : List Char) : Prop :=
+  match t with
+  | .int _ => Ends rest
+  | .date _ => Ends rest
+  | .bytes _ => ∀ c, rest.head? = some c → isHexTok c = false
+  | _ => True
+
+theorem Ends.endsFor {rest : List Char} (h : Ends rest) (t : Printer.STerm) : EndsFor t rest := by
+  cases t <;> simp only [EndsFor] <;> first | exact h | exact (fun c hc => (h c hc).2.2.1) | trivial
+
 /-! ## tag, space0 -/
 
 theorem tag_append (t rest : List Char) : tag t (t ++ rest) = some rest := by
@@ -185,10 +213,10 @@ theorem cont_head {rest : List Char} (hc : Cont rest) {p : Char → Bool} (hp : 
   subst h; exact hp _ hcl
 
 theorem pDate_none_digits {dateP} (hd : DateShape dateP) (ds rest : List Char) (hall : ∀ c ∈ ds, Char.isDigit c = true)
-    (hc : Cont rest) : pDate dateP (ds ++ rest) = none := by
+    (hc : Ends rest) : pDate dateP (ds ++ rest) = none := by
   have htw := takeWhile_append_of_all (fun c => !isDateDelim c) ds rest
     (fun x hx => by simp [(digit_facts (hall x hx)).2.2.2.1])
-    (cont_head hc (fun c h => by simp [(closer_facts h).2.2.2.2.1]))
+    (fun c h => by simp [(hc c h).2.2.2])
   unfold pDate
   rw [htw.1]
   split
@@ -201,11 +229,11 @@ theorem pDate_none_digits {dateP} (hd : DateShape dateP) (ds rest : List Char) (
       have hdg : Char.isDigit '-' = true := hall _ hm
       exact absurd hdg (by decide)
 
-theorem pAtom_int {dateP} (hd : DateShape dateP) (i : Int) (rest : List Char) (hi : inI64 i = true) (hc : Cont rest) :
+theorem pAtom_int {dateP} (hd : DateShape dateP) (i : Int) (rest : List Char) (hi : inI64 i = true) (hc : Ends rest) :
     pAtom dateP (printIntChars i ++ rest) = some (.int i, rest) := by
   have hi' := hi
   simp only [inI64, Bool.and_eq_true, decide_eq_true_eq] at hi'
-  have hrt := int_round_trip i rest hi'.1 hi'.2 (cont_head hc (fun c h => (closer_facts h).2.1))
+  have hrt := int_round_trip i rest hi'.1 hi'.2 (fun c h => (hc c h).1)
   by_cases hneg : i < 0
   · have hshape : printIntChars i ++ rest = '-' :: (printNatChars (-i).toNat ++ rest) := by
       simp [printIntChars, hneg]
@@ -235,7 +263,7 @@ theorem pAtom_str {dateP} (s : String) (rest : List Char) :
   simp only [pAtom, pParameter, pStringT, pBraced_none_head _ (show '"' ≠ '{' by decide), hrt,
     Option.map_none, Option.map_some, alt_none, alt_some, String.ofList_toList]
 
-theorem pAtom_date {dateP} (d : Nat) (rest : List Char) (hok : dateOK dateP d = true) (hc : Cont rest) :
+theorem pAtom_date {dateP} (d : Nat) (rest : List Char) (hok : dateOK dateP d = true) (hc : Ends rest) :
     pAtom dateP ((printDate d).toList ++ rest) = some (.date d, rest) := by
   simp only [dateOK, Bool.and_eq_true, beq_iff_eq, List.all_eq_true] at hok
   obtain ⟨⟨⟨hp, hall⟩, hhead⟩, _⟩ := hok
@@ -245,7 +273,7 @@ theorem pAtom_date {dateP} (d : Nat) (rest : List Char) (hok : dateOK dateP d = 
     rw [htxt] at hhead hall hp
     simp only at hhead
     have htw := takeWhile_append_of_all (fun c => !isDateDelim c) (c :: tl) rest hall
-      (cont_head hc (fun c h => by simp [(closer_facts h).2.2.2.2.1]))
+      (fun c h => by simp [(hc c h).2.2.2])
     simp only [List.cons_append] at htw ⊢
     simp only [pAtom, pParameter, pStringT, pDate, pBraced_none_head _ (digit_facts hhead).1,
       parseString_none_head _ (digit_facts hhead).2.1, htw.1, htw.2, hp,
@@ -269,10 +297,10 @@ theorem hexEncode_ne_nil (bs : List UInt8) (h : bs ≠ []) : hexEncode bs ≠ []
   | nil => exact absurd rfl h
   | cons b bs => simp [hexEncode]
 
-theorem pAtom_bytes {dateP} (hd : DateShape dateP) (b : List UInt8) (rest : List Char) (hb : b ≠ []) (hc : Cont rest) :
+theorem pAtom_bytes {dateP} (hd : DateShape dateP) (b : List UInt8) (rest : List Char) (hb : b ≠ [])
+    (hc : ∀ c, rest.head? = some c → isHexTok c = false) :
     pAtom dateP (['h', 'e', 'x', ':'] ++ hexEncode b ++ rest) = some (.bytes b, rest) := by
-  have htw := takeWhile_append_of_all isHexTok (hexEncode b) rest (fun c h => (hexEncode_tok b c h).1)
-    (cont_head hc (fun c h => (closer_facts h).2.2.2.1))
+  have htw := takeWhile_append_of_all isHexTok (hexEncode b) rest (fun c h => (hexEncode_tok b c h).1) hc
   have hhex : pHexT (hexEncode b ++ rest) = some (b, rest) := by
     unfold pHexT
     rw [htw.1, htw.2]
